@@ -210,6 +210,11 @@ pub mod vnet {
         #[verifier::external_body] pub fn incoming(&self) -> (r: Vec<Result<Stream, IoError>>)
             ensures forall|i: int| 0 <= i < r@.len() ==> (#[trigger] r@[i] matches Err(e) ==> e.origin@ == 1) { unimplemented!() }
     }
+    // std::process::exit in the server: ends tacd for every later client - nothing a connection does may lead there
+    #[verifier::external_body]
+    pub fn process_exit(code: i32) -> !
+        requires false //@C17.no_connection_ends_the_process
+    { std::process::exit(code) }
     // what the accept loop iterates over: a connection attempt (accepted or failed), or - behind an adapter - an accepted connection
     pub trait Attempt { spec fn is_conn(&self) -> bool; }
     impl Attempt for Result<Stream, IoError> { open spec fn is_conn(&self) -> bool { self is Ok } }
